@@ -1,6 +1,8 @@
-(* C12_detn_adj.v — (thorough tier) the generic adjugate of C12_FeDetN is the inverse up to the
-   determinant for dimension 4: adjugate * A = A * adjugate = det * I over R, hence adjugate / det
-   is the two-sided inverse when det <> 0.  This is the reference np.linalg.inv is compared with. *)
+(* C12_FeDetNProofs.v — facts about the generic Leibniz determinant / adjugate of C12_FeDetN over
+   R, independent of /repo (proved once): Laplace expansion = Leibniz for dims 2-5;
+   adjugate * A = A * adjugate = det * I for dim 4, hence adjugate / det is the two-sided inverse
+   when det <> 0.  These are the references the numpy fallback (dim > 3) of Det / Inv is compared
+   with in the correspondence. *)
 From Coq Require Import List Arith Bool Reals Lra Lia.
 From EFModel Require Import C12_FeDetN.
 Import ListNotations.
@@ -8,6 +10,14 @@ Local Open Scope nat_scope.
 
 Definition leibnizR := leibniz_gen R 0%R 1%R Rplus Rmult Ropp.
 Definition adjugateR := adjugate_gen R 0%R 1%R Rplus Rmult Ropp.
+Definition cofactorR := cofactor_row0 R 0%R 1%R Rplus Rmult Ropp.
+
+Theorem cofactor_expansion_is_leibniz_2_to_5 (m : nat -> nat -> R) :
+  cofactorR 2 m = leibnizR 2 m /\ cofactorR 3 m = leibnizR 3 m /\ cofactorR 4 m = leibnizR 4 m /\
+  cofactorR 5 m = leibnizR 5 m.
+Proof.
+  repeat split; unfold cofactorR, cofactor_row0, leibnizR, leibniz_gen, signed, minor; cbn; ring.
+Qed.
 
 Definition mmulR (n : nat) (A B : nat -> nat -> R) (i j : nat) : R :=
   fold_right Rplus 0%R (map (fun k => (A i k * B k j)%R) (seq 0 n)).
@@ -22,7 +32,6 @@ Proof.
   intros i j Hi Hj.
   destruct i as [|[|[|[|i]]]]; try lia; destruct j as [|[|[|[|j]]]]; try lia; split; adj_case.
 Qed.
-Print Assumptions adjugate4_times_matrix.
 
 (* hence adjugate / det is the two-sided inverse whenever det <> 0 *)
 Corollary adjugate4_over_det_is_inverse (m : nat -> nat -> R) : leibnizR 4 m <> 0%R ->
@@ -34,3 +43,6 @@ Proof.
   apply Rmult_eq_reg_l with (r := leibnizR 4 m); [|exact Hd]. rewrite <- H. field. exact Hd.
 Qed.
 
+
+Example det4_hyp_satisfiable : leibnizR 4 (fun i j => if i =? j then 1%R else 0%R) <> 0%R.
+Proof. unfold leibnizR, leibniz_gen, signed. cbn. lra. Qed.
